@@ -237,6 +237,13 @@ func (m *SigningProposalFSM) actionConfirmationError(inEvent fsm.Event, args ...
 		return
 	}
 
+	// a report made for another batch (a slow participant) says nothing about the current one
+	if request.BatchID != "" && request.BatchID != m.payload.SigningProposalPayload.BatchID {
+		err = fmt.Errorf("error report was made for batch {%s}, but current batch is {%s}",
+			request.BatchID, m.payload.SigningProposalPayload.BatchID)
+		return
+	}
+
 	if !m.payload.SigningQuorumExists(request.ParticipantId) {
 		err = errors.New("{ParticipantId} not exist in quorum")
 		return
